@@ -22,7 +22,10 @@ RULE = ("every program of the C01 C02 C03 C04 C06 C07 C09 generators plus "
         "hand-parameterised families (ktime/prandom inside expressions and "
         "conditions, helper calls issued directly with scratch registers "
         "set before and read after, array-map layouts with multi-element "
-        "formats whose scalars are updated in place, sub-programs, dynamic packetSize guards after "
+        "formats whose scalars are updated in place, sub-programs, every "
+        "combination of per-CPU map / array map / hash map / stack "
+        "variables in any declaration order with static or dynamic packet "
+        "guards, dynamic packetSize guards after "
         "arithmetic, nested guards) and the library's own programs (the "
         "EtherXDP dispatcher; FastSyncGroup over random terminal sets with "
         "each bundled device AnalogInput/Output, DigitalInput/Output, "
@@ -259,6 +262,55 @@ def fam_guards(rng):
     return mk
 
 
+def fam_storage_mix(rng):
+    """every combination of storage kinds (per-CPU map, array map, hash map,
+    stack variable) in any declaration order, in an XDP program that uses the
+    context (static or dynamic packet guard) after the maps were set up"""
+    kinds = rng.sample(["percpu", "array", "hash", "stack"],
+                       rng.randint(1, 4))
+    static = rng.random() < 0.4
+    G = rng.randint(16, 60)
+    fm = {k: rng.choice(["B", "H", "I", "Q", "i", "q"]) for k in kinds}
+
+    def mk():
+        from ebpfcat.arraymap import PerCPUArrayMap
+        from ebpfcat.hashmap import HashMap
+        from ebpfcat.ebpf import LocalVar
+        ns = {"license": "GPL"}
+        if static:
+            ns["minimumPacketSize"] = G
+        for k in kinds:
+            if k == "percpu":
+                ns["mp"] = PerCPUArrayMap()
+                ns["v_percpu"] = ns["mp"].globalVar(fm[k])
+            elif k == "array":
+                ns["ma"] = ArrayMap()
+                ns["v_array"] = ns["ma"].globalVar(fm[k])
+            elif k == "hash":
+                ns["mh"] = HashMap()
+                ns["v_hash"] = ns["mh"].globalVar()
+            else:
+                ns["v_stack"] = LocalVar(fm[k])
+
+        def body(e, p):
+            for k in kinds:
+                setattr(e, "v_" + k, p.pB[G - 1] + 1)
+            for k in kinds:
+                p.pH[G - 3] = getattr(e, "v_" + k)
+
+        def program(self):
+            e = self
+            if static:
+                body(e, e)
+            else:
+                with e.packetSize > G as p:
+                    body(e, p)
+            e.exit(XDPExitCode.PASS)
+        ns["program"] = program
+        return type("VfStorageMix", (XDP,), ns)()
+    return mk, dict(kinds=kinds, static=static, G=G, fmts=fm)
+
+
 def fam_subprog(rng):
     nsub = rng.randint(1, 3)
     fm = [rng.choice("BHIQbhiq") for _ in range(nsub)]
@@ -404,6 +456,8 @@ def run_shard(params):
         submit("layout", mk, res, desc=d)
         submit("guards", fam_guards(rng), res)
         submit("subprog", fam_subprog(rng), res)
+        mk, d = fam_storage_mix(rng)
+        submit("storagemix", mk, res, desc=d)
         mk, names = fam_fastgroup(rng)
         submit("fastgroup", mk, res, desc=names)
     return res
@@ -412,7 +466,8 @@ def run_shard(params):
 def finalize(res, tier, seed):
     c = res.counters
     fams = ["c01", "c02", "c03", "c04", "c06", "c07", "c09hash", "c09dict",
-            "calls", "rawcall", "layout", "guards", "subprog", "fastgroup",
+            "calls", "rawcall", "layout", "guards", "subprog", "storagemix",
+            "fastgroup",
             "dispatcher"]
     missing = [f for f in fams if not c.get(f"loaded[{f}]")]
     res.info["families_without_a_loaded_program"] = missing
